@@ -600,7 +600,7 @@ func (e *Exec) builtin(c *ast.CallExpr, name string) Val {
 			for _, a := range c.Args[1:] {
 				e.ev(a)
 			}
-			return iv(e.newMap())
+			return iv(e.newMapT(t))
 		case *types.Chan:
 			for _, a := range c.Args[1:] {
 				e.ev(a)
